@@ -731,7 +731,7 @@ def translate(ctx):
 # =====================================================================================
 RULE = ("conformations are generated from seeded recipes (kinds: random, near_identical, near_planar, mirror, offset "
         "(up to 500 nm), grid (integer coordinates, exact tie), tiny (water-sized), half_turn_axis/generic, "
-        "near_half_turn) with atom counts covering all residues mod 4 up to 4099; ops = md.rmsd (parallel x "
+        "near_half_turn, swapped_halves) with atom counts covering all residues mod 4 up to 4099; ops = md.rmsd (parallel x "
         "precentered x atom_indices none/equal/different, any order, any reference frame), Trajectory.superpose, "
         "md.rmsf, md.lprmsd; a case-op-frame is non-trivial when the two conformations differ; distinct by hash of "
         "(generator recipe, op)")
@@ -763,6 +763,7 @@ C_SUP = 24.0      # |deviation - minimal rmsd| <= C_SUP * 2^-23 * (radius + offs
 C_RIG = 24.0      # interatomic distances      <= C_RIG * 2^-23 * (radius + offset)
 C_RMSF = 48.0     # rmsf                       <= C_RMSF * 2^-23 * (radius + offset) * (1 + 1/kappa)
 KAPPA_MIN = 1e-6  # below: top eigenvalue numerically degenerate (several optimal rotations): value checks excluded
+ROTCOND_MIN = 1e-3  # rotation-dependent values (superposed deviation, rmsf) carry (1 + 1/rotation_conditioning); below: excluded
 
 
 def rotmat(axis, ang):
@@ -793,12 +794,17 @@ def gen_arrays(gen):
     m = gen.get("m", n)
     scale = gen.get("scale", 1.0)
     unit = gen.get("unit", 8)
-    if kind in ("grid", "half_turn_axis"):
+    if kind in ("grid", "half_turn_axis", "swapped_halves"):
         refs_i = [grid_structure(rs, m, gen.get("lim", 6)) for _ in range(G)]
         tg_i = []
         for f in range(F):
             if kind == "grid":
                 tg_i.append(grid_structure(rs, n, gen.get("lim", 6)))
+            elif kind == "swapped_halves":
+                # same points, first and second half exchanged: M = B^T A + A^T B is symmetric, so the optimal
+                # rotation is the identity or a half turn (witness reported by the C03 correspondence)
+                h = n // 2
+                tg_i.append(np.vstack([refs_i[f % G][h:2 * h], refs_i[f % G][:h], refs_i[f % G][2 * h:n]]))
             else:
                 D = [np.diag([1, -1, -1]), np.diag([-1, 1, -1]), np.diag([-1, -1, 1])][rs.randint(3)]
                 tg_i.append(refs_i[f % G][:n] @ D)
@@ -884,6 +890,24 @@ def size_terms(a, b):
     return g / len(a), float(max(np.sqrt((A * A).sum(1)).max(), np.sqrt((B * B).sum(1)).max())), kappa
 
 
+def rotation_conditioning(a, b):
+    """kappa * min(1, gamma2), gamma2 = (lam_1 - lam_2)/S: the eigenvector (hence the rotation) computed from a root
+    with error delta_lam ~ 2^-23 S / kappa is off by delta_lam / (lam_1 - lam_2)."""
+    a = np.asarray(a, dtype=np.float64)
+    b = np.asarray(b, dtype=np.float64)
+    A, B = a - a.mean(0), b - b.mean(0)
+    g = float((A * A).sum() + (B * B).sum())
+    if g <= 0:
+        return 0.0
+    S = A.T @ B
+    (Sxx, Sxy, Sxz), (Syx, Syy, Syz), (Szx, Szy, Szz) = S
+    K = np.array([[Sxx + Syy + Szz, Syz - Szy, Szx - Sxz, Sxy - Syx], [Syz - Szy, Sxx - Syy - Szz, Sxy + Syx, Szx + Sxz],
+                  [Szx - Sxz, Sxy + Syx, -Sxx + Syy - Szz, Syz + Szy], [Sxy - Syx, Szx + Sxz, Syz + Szy, -Sxx - Syy + Szz]])
+    w = np.linalg.eigvalsh(K)
+    kappa = float(np.prod((w[-1] - w[:-1]) / (g / 2)))
+    return kappa * min(1.0, float((w[-1] - w[-2]) / (g / 2)))
+
+
 def op_indices(op, n, m):
     ai = op.get("atom_indices")
     ri = op.get("ref_atom_indices")
@@ -912,8 +936,9 @@ def gen_ops(rng, gen, quick, full=True):
     ops = []
     fr = lambda: rng.randrange(G)
     if n == m:
-        ops.append({"op": "rmsd", "frame": fr(), "parallel": True})
-        ops.append({"op": "rmsd", "frame": fr(), "parallel": False})
+        f0 = fr()
+        ops.append({"op": "rmsd", "frame": f0, "parallel": True})
+        ops.append({"op": "rmsd", "frame": f0, "parallel": False, "same_as": 0})   # identical call but for the parallel flag
         ops.append({"op": "rmsd", "frame": fr(), "parallel": rng.random() < 0.5, "precentered": True})
     k = rng.randint(3, min(n, m))
     A = sub_indices(rng, n, k)
@@ -981,6 +1006,10 @@ def build_cases(ctx):
     for _ in range(6 if quick else 40):
         n = rng.randint(4, 12)
         add({"kind": "half_turn_axis", "n": n, "m": n, "F": 2, "G": 1, "lim": 6, "unit": 8},
+            ops=[{"op": "rmsd", "frame": 0, "parallel": True}, {"op": "superpose", "frame": 0, "parallel": True}])
+    for _ in range(4 if quick else 30):
+        n = rng.choice([6, 10, 11, 16])
+        add({"kind": "swapped_halves", "n": n, "m": n, "F": 2, "G": 1, "lim": 12, "unit": 4},
             ops=[{"op": "rmsd", "frame": 0, "parallel": True}, {"op": "superpose", "frame": 0, "parallel": True}])
     for _ in range(6 if quick else 40):
         n = rng.choice([5, 30, 200])
@@ -1148,6 +1177,12 @@ def check_cases(ctx, cases, arrays, out, errors):
                          expected="a value", tags={"kind": "raises", "op": op["op"]})
                 continue
             val = out[key]
+            if "same_as" in op and ("c%d_o%d" % (k, op["same_as"])) in out:
+                other = out["c%d_o%d" % (k, op["same_as"])]
+                if not np.array_equal(np.asarray(other), np.asarray(val)):
+                    ctx.fail("md.%s depends on the parallel flag" % op["op"], {"gen": gen, "ops": [c["ops"][op["same_as"]], op]},
+                             observed={"parallel": [float(v) for v in other[:4]], "serial": [float(v) for v in val[:4]]},
+                             expected="bitwise identical results", tags={"kind": "parallel_flag", "op": op["op"]})
             A, B = op_indices(op, n, m)
             fr = op.get("frame", 0)
             if op["op"] in ("rmsd", "lprmsd"):
@@ -1180,8 +1215,11 @@ def check_cases(ctx, cases, arrays, out, errors):
                     radall = float(np.sqrt(((x - ca) ** 2).sum(1)).max())
                     off = float(max(np.abs(ca).max(), np.abs(cb).max()))
                     dev = math.sqrt(float(((y[A] - b.astype(np.float64)) ** 2).sum()) / len(A))
-                    tol = C_SUP * EPS * (radall + off) * (1 + 1 / max(kappa, KAPPA_MIN))
-                    ok_opt = abs(dev - math.sqrt(msd)) <= tol or kappa < KAPPA_MIN
+                    rc = rotation_conditioning(a, b)
+                    tol = C_SUP * EPS * (radall + off) * (1 + 1 / max(rc, ROTCOND_MIN))
+                    if rc < ROTCOND_MIN:
+                        excl["superpose_ill_conditioned_rotation"] = excl.get("superpose_ill_conditioned_rotation", 0) + 1
+                    ok_opt = abs(dev - math.sqrt(msd)) <= tol or rc < ROTCOND_MIN
                     # rigidity: all distances to a few pivot atoms
                     piv = [0, n // 2, n - 1]
                     d0 = np.sqrt(((x[:, None, :] - x[None, piv, :]) ** 2).sum(-1))
@@ -1199,7 +1237,7 @@ def check_cases(ctx, cases, arrays, out, errors):
                                  observed={"frame": f, "max_change": float(np.abs(d0 - d1).max())}, expected={"tol": tol_r},
                                  tags={"kind": "superpose_not_rigid", "gen": gen["kind"]})
                         break
-                    special = gen["kind"] in ("half_turn_axis", "half_turn_generic", "near_half_turn", "tiny")
+                    special = gen["kind"] in ("half_turn_axis", "half_turn_generic", "near_half_turn", "tiny", "swapped_halves")
                     if (not ok_opt) or special:
                         pending.append({"rec": rec, "f": f, "a": a, "b": b, "ok": ok_opt, "ident": is_ident,
                                         "dev": dev, "opt": math.sqrt(msd), "tol": tol, "gen": gen["kind"]})
@@ -1212,14 +1250,14 @@ def check_cases(ctx, cases, arrays, out, errors):
                 for f in range(F):
                     a, b = target[f][A], refarr[fr][B]
                     msd, R, ca, cb = kabsch(a, b)
-                    kmin = min(kmin, size_terms(a, b)[2])
+                    kmin = min(kmin, rotation_conditioning(a, b))
                     X.append((a.astype(np.float64) - ca) @ R)
                     Rs.append(R)
                 X = np.array(X)
                 true = np.sqrt(((X - X.mean(0)) ** 2).sum(-1).mean(0))
                 rad = float(np.sqrt((X ** 2).sum(-1)).max())
                 off = float(max(np.abs(target[:, A].astype(np.float64).mean(1)).max(), 0.0))
-                if kmin < 1e-3:
+                if kmin < ROTCOND_MIN:
                     excl["rmsf_ill_conditioned_rotation"] = excl.get("rmsf_ill_conditioned_rotation", 0) + 1
                     continue
                 tol = C_RMSF * EPS * (rad + off) * (1 + 1 / kmin)
@@ -1312,7 +1350,7 @@ def exact_tie(ctx, cases, arrays, out):
     implementation's rmsd must be the largest root of that polynomial."""
     coqcases, meta = [], []
     for k, c in enumerate(cases):
-        if c["gen"]["kind"] not in ("grid", "half_turn_axis"):
+        if c["gen"]["kind"] not in ("grid", "half_turn_axis", "swapped_halves"):
             continue
         target, ref = arrays[k]
         unit = c["gen"]["unit"]
@@ -1429,5 +1467,18 @@ def search(ctx, broken):
     run_cases(ctx, extra)
 
 
+def refresh_model(ctx, targets):
+    """A replay skips the translate/prove stages: regenerate the formulas from the tree being replayed against and
+    rebuild the (proof-free) model files, so that the Gallina side is evaluated for THIS tree."""
+    try:
+        translate(ctx)
+    except Exception as e:       # degraded translator: the last generated text stands in
+        ctx.log("translator degraded:", e)
+    ok, log = ctx.make(list(targets))
+    if not ok:
+        ctx.break_("replay:model-build", log)
+
+
 def replay(ctx, rec):
+    refresh_model(ctx, ["Rmsd/Model.vo"])
     run_cases(ctx, [rec["case"]])
